@@ -277,6 +277,13 @@ Section Types.
       rewrite filter_app, map_app, IHk, IHv. reflexivity.
     - exact IHa.
   Qed.
+
+  Lemma field_type_lit_quals : forall t,
+      oty_quals (fst (field_type_lit L target c t)) = map L (filter (fun p => negb (bytes_eqb p target)) (fty_pkgs t)).
+  Proof.
+    intros t. destruct t as [n| | |pkg name u ms|e|e|n e|k v|txt|ap an ar]; try apply type_lit_quals.
+    cbn [field_type_lit fty_pkgs filter]. destruct (bytes_eqb ap target); reflexivity.
+  Qed.
 End Types.
 
 (* ================================================================================================================
@@ -293,14 +300,8 @@ Section Copy.
 
   (* the type the switch of createFieldSnippet runs on: the field's own type, or the named type (error included) it is
      an alias of *)
-  Lemma switch_type_spec : forall ua t,
-      switch_type ua t = t \/ (exists p n u ms, switch_type ua t = TNamed p n u ms) \/ switch_type ua t = TError.
-  Proof.
-    intros [|] t; [|left; reflexivity]. unfold switch_type.
-    destruct (unalias t); try (left; reflexivity).
-    - right. right. reflexivity.
-    - right. left. eauto.
-  Qed.
+  Lemma unalias_not_alias : forall t p n r, unalias t <> TAlias p n r.
+  Proof. induction t; intros p0 n0 r0; cbn [unalias]; try discriminate. apply IHt. Qed.
 
   Lemma gen_stmts_loop_spec : forall omit repl fs acc imps ss i,
       gen_stmts_loop L target c omit repl fs acc imps = GOk ss i ->
@@ -355,9 +356,9 @@ Section Copy.
       destruct (scan_methods ms (false, false, true)) as [[hc hi] ptr].
       destruct (bytes_eqb pkg target && negb (is_uiface u)); apply Hsel.
     - intros H; inversion H; split; reflexivity.
-    - destruct (type_lit L target c (TSlice e)). intros H; inversion H; split; reflexivity.
+    - destruct (field_type_lit L target c (f_ty f)). intros H; inversion H; split; reflexivity.
     - intros H; inversion H; split; reflexivity.
-    - destruct (type_lit L target c (TMap k v)). intros H; inversion H; split; reflexivity.
+    - destruct (field_type_lit L target c (f_ty f)). intros H; inversion H; split; reflexivity.
     - intros H; inversion H; split; reflexivity.
     - intros H; inversion H; split; reflexivity.
   Qed.
@@ -470,7 +471,7 @@ Section Errors.
       exists fs o, ti_under ti = Some fs /\ origin_loop c (ti_name ti) (ti_group ti) None = Some o /\
         g_origin g = fst (origin_ref L target o) /\
         (exists i1, gen_fields_loop L target c (ti_omit ti) (replace_map (ti_replace ti) []) fs [] [] = GOk (g_fields g) i1) /\
-        (exists i3, gen_stmts_loop L target c (ti_omit ti) (replace_map (ti_replace ti) []) fs [] [] = GOk (g_stmts g) i3).
+        (exists i3, gen_stmts_loop L target c (copy_skip (ti_omit ti)) (replace_map (ti_replace ti) []) fs [] [] = GOk (g_stmts g) i3).
   Proof.
     intros ti g i. unfold generate_type.
     destruct (ti_enabled ti); cbn [negb]; [|discriminate].
@@ -480,7 +481,7 @@ Section Errors.
     destruct (gen_fields_loop L target c (ti_omit ti) (replace_map (ti_replace ti) []) fs [] []) as [gfs i1| |] eqn:Ef;
       try discriminate.
     destruct (origin_ref L target o) as [oref i2] eqn:Eor.
-    destruct (gen_stmts_loop L target c (ti_omit ti) (replace_map (ti_replace ti) []) fs [] []) as [sts i3| |] eqn:Es;
+    destruct (gen_stmts_loop L target c (copy_skip (ti_omit ti)) (replace_map (ti_replace ti) []) fs [] []) as [sts i3| |] eqn:Es;
       try discriminate.
     intros H. inversion H; subst. cbn [g_origin g_fields g_stmts fst]. split; [reflexivity|].
     exists fs, o. split; [reflexivity|]. split; [reflexivity|]. split; [rewrite Eor; reflexivity|].
@@ -580,43 +581,37 @@ Section Scoping.
   Lemma field_stmt_quals : forall b f s j,
       field_stmt L target c b f = GOk s j ->
       stmt_quals s = [] \/
-      (is_container (f_ty f) = true /\ stmt_quals s = oty_quals (fst (type_lit L target c (f_ty f)))).
+      (is_container (unalias (f_ty f)) = true /\ stmt_quals s = oty_quals (fst (field_type_lit L target c (f_ty f)))).
   Proof.
     intros b f s j.
     assert (Hsel : forall fc i0, GOk (select_named (f_name f) fc) i0 = GOk s j -> stmt_quals s = []).
     { intros fc i0 H. assert (Hs : s = select_named (f_name f) fc) by congruence.
       rewrite Hs. apply select_named_quals. }
-    unfold field_stmt, field_stmt_gen. cbv zeta.
-    destruct (switch_type_spec true (f_ty f)) as [Hs|[[p0 [n0 [u0 [ms0 Hs]]]]|Hs]]; rewrite Hs.
-    - destruct (f_ty f) as [n| | |pkg name u ms|e|e|n e|k v|txt|ap an ar] eqn:Et.
-      + intros H; inversion H; left; reflexivity.
-      + intros H; inversion H; left; reflexivity.
-      + destruct b; [intros H; left; eapply Hsel; exact H|].
-        destruct (fx_errnil c); [|discriminate]. intros H; inversion H; left; reflexivity.
-      + destruct b; [intros H; left; eapply Hsel; exact H|].
-        destruct (scan_methods ms (false, false, true)) as [[hc hi] ptr].
-        destruct (bytes_eqb pkg target && negb (is_uiface u)); intros H; left; eapply Hsel; exact H.
-      + intros H; inversion H; left; reflexivity.
-      + destruct (type_lit L target c (TSlice e)) as [o oi] eqn:El. intros H; inversion H. right.
-        split; reflexivity.
-      + intros H; inversion H; left; reflexivity.
-      + destruct (type_lit L target c (TMap k v)) as [o oi] eqn:El. intros H; inversion H. right.
-        split; reflexivity.
-      + intros H; inversion H; left; reflexivity.
-      + intros H; inversion H; left; reflexivity.
-    - destruct b; [intros H; left; eapply Hsel; exact H|].
-      destruct (scan_methods ms0 (false, false, true)) as [[hc hi] ptr].
-      destruct (bytes_eqb p0 target && negb (is_uiface u0)); intros H; left; eapply Hsel; exact H.
+    unfold field_stmt, field_stmt_gen, switch_type. cbv zeta.
+    destruct (unalias (f_ty f)) as [n| | |pkg name u ms|e|e|n e|k v|txt|ap an ar] eqn:Et.
+    - intros H; inversion H; left; reflexivity.
+    - intros H; inversion H; left; reflexivity.
     - destruct b; [intros H; left; eapply Hsel; exact H|].
       destruct (fx_errnil c); [|discriminate]. intros H; inversion H; left; reflexivity.
+    - destruct b; [intros H; left; eapply Hsel; exact H|].
+      destruct (scan_methods ms (false, false, true)) as [[hc hi] ptr].
+      destruct (bytes_eqb pkg target && negb (is_uiface u)); intros H; left; eapply Hsel; exact H.
+    - intros H; inversion H; left; reflexivity.
+    - destruct (field_type_lit L target c (f_ty f)) as [o oi] eqn:El. intros H; inversion H. right.
+      split; reflexivity.
+    - intros H; inversion H; left; reflexivity.
+    - destruct (field_type_lit L target c (f_ty f)) as [o oi] eqn:El. intros H; inversion H. right.
+      split; reflexivity.
+    - intros H; inversion H; left; reflexivity.
+    - intros H; inversion H; left; reflexivity.
   Qed.
 
   Lemma gen_stmts_quals : forall omit repl fs acc imps ss i q,
       gen_stmts_loop L target c omit repl fs acc imps = GOk ss i ->
       In q (flat_map stmt_quals ss) ->
       In q (flat_map stmt_quals acc) \/
-      exists f p, In f fs /\ retained omit f = true /\ is_container (f_ty f) = true /\
-                  In p (ty_pkgs (f_ty f)) /\ bytes_eqb p target = false /\ q = L p.
+      exists f p, In f fs /\ retained omit f = true /\ is_container (unalias (f_ty f)) = true /\
+                  In p (fty_pkgs (f_ty f)) /\ bytes_eqb p target = false /\ q = L p.
   Proof.
     intros omit repl fs. induction fs as [|f r IH]; intros acc imps ss i q H Hq; cbn [gen_stmts_loop] in H.
     - inversion H; subst. left. exact Hq.
@@ -632,7 +627,7 @@ Section Scoping.
           right. exists f.
           destruct (field_stmt_quals _ _ _ _ Es) as [Hnil|[Hc Hqs]].
           -- rewrite Hnil in Ha. contradiction.
-          -- rewrite Hqs, type_lit_quals in Ha. apply in_map_iff in Ha.
+          -- rewrite Hqs, field_type_lit_quals in Ha. apply in_map_iff in Ha.
              destruct Ha as [p [Hp Hpin]]. apply filter_In in Hpin. destruct Hpin as [Hpin Hpt].
              exists p. split; [left; reflexivity|]. split; [unfold retained; rewrite Eo; reflexivity|].
              split; [exact Hc|]. split; [exact Hpin|]. split.
@@ -718,8 +713,8 @@ Section Main.
       - destruct (match lookup (f_name f) repl with Some _ => true | None => false end); eauto.
         destruct (scan_methods ms (false, false, true)) as [[hc hi] ptr].
         destruct (bytes_eqb pkg target && negb (is_uiface u)); eauto.
-      - destruct (type_lit L target c (TSlice e)). eauto.
-      - destruct (type_lit L target c (TMap k v)). eauto. }
+      - destruct (field_type_lit L target c (f_ty f)). eauto.
+      - destruct (field_type_lit L target c (f_ty f)). eauto. }
     destruct Hs as [s [j Hs]]. rewrite Hs. apply IH. exact He.
   Qed.
 
@@ -738,7 +733,7 @@ Section Main.
     - apply replace_map_nonempty. intros k v [].
     - exact Hm.
     - rewrite Hf. destruct (origin_ref L target o) as [oref i2].
-      destruct (gen_stmts_loop_total (ti_omit ti) (replace_map (ti_replace ti) []) fs [] [] Herr) as [ss [i3 Hs]].
+      destruct (gen_stmts_loop_total (copy_skip (ti_omit ti)) (replace_map (ti_replace ti) []) fs [] [] Herr) as [ss [i3 Hs]].
       rewrite Hs. eauto.
   Qed.
 
@@ -761,8 +756,8 @@ Section Main.
       forall inv, exists out,
         deep_copy_as conv (g_stmts g) (Some inv) = Some (Some out) /\
         forall f, In f fs ->
-          (omitted (ti_omit ti) (f_name f) = true -> sget out (f_name f) = VZero) /\
-          (omitted (ti_omit ti) (f_name f) = false ->
+          (omitted (copy_skip (ti_omit ti)) (f_name f) = true -> sget out (f_name f) = VZero) /\
+          (omitted (copy_skip (ti_omit ti)) (f_name f) = false ->
              exists s j, In s (g_stmts g) /\
                field_stmt L target c (is_replaced (replace_map (ti_replace ti) []) f) f = GOk s j /\
                sget out (f_name f) = if is_call s then conv (f_name f) (sget inv (f_name f))
@@ -783,7 +778,7 @@ Section Main.
         apply in_map_iff in Hi. destruct Hi as [f' [Hn Hf']]. apply filter_In in Hf'. destruct Hf' as [_ Hr].
         unfold retained in Hr. rewrite Hn, Hom in Hr. discriminate.
       + intros Hom.
-        assert (Hinf : In f (filter (retained (ti_omit ti)) fs)).
+        assert (Hinf : In f (filter (retained (copy_skip (ti_omit ti))) fs)).
         { apply filter_In. split; [exact Hin|]. unfold retained. rewrite Hom. reflexivity. }
         destruct (Forall2_in_l _ _ _ _ HF Hinf) as [s [Hsin [j Hfs]]].
         exists s, j. split; [exact Hsin|]. split; [exact Hfs|].
@@ -798,20 +793,16 @@ Section Main.
       is_call s = false.
   Proof.
     intros f s j H Hn. unfold field_stmt, field_stmt_gen in H. cbv zeta in H.
-    assert (Hn' : forall pkg name u ms, switch_type true (f_ty f) <> TNamed pkg name u ms).
-    { intros pkg name u ms E. unfold switch_type in E.
-      destruct (unalias (f_ty f)) as [n| | |pkg' name' u' ms'|e|e|n e|k v|txt|ap an ar] eqn:Eu;
-        try (rewrite E in Eu; cbn [unalias] in Eu; discriminate Eu); try discriminate E.
-      eapply Hn. reflexivity. }
+    assert (Hn' : forall pkg name u ms, switch_type true (f_ty f) <> TNamed pkg name u ms) by exact Hn.
     destruct (switch_type true (f_ty f)) as [n| | |pkg name u ms|e|e|n e|k v|txt|ap an ar] eqn:Et.
     - inversion H; reflexivity.
     - inversion H; reflexivity.
     - destruct (fx_errnil c); [|discriminate]. inversion H; reflexivity.
     - exfalso. eapply Hn'. reflexivity.
     - inversion H; reflexivity.
-    - destruct (type_lit L target c (TSlice e)). inversion H; reflexivity.
+    - destruct (field_type_lit L target c (f_ty f)). inversion H; reflexivity.
     - inversion H; reflexivity.
-    - destruct (type_lit L target c (TMap k v)). inversion H; reflexivity.
+    - destruct (field_type_lit L target c (f_ty f)). inversion H; reflexivity.
     - inversion H; reflexivity.
     - inversion H; reflexivity.
   Qed.
@@ -856,20 +847,39 @@ Section Main.
     inversion H. reflexivity.
   Qed.
 
-  (* before the repair C18-replace-on-alias-field: a replaced field whose type is an alias of a named struct was assigned *)
-  Lemma replaced_alias_refuted_before_fix : forall f p n r,
+  (* before the repairs bf0d8cc / adc5fac no alias was looked through: every alias-typed field was assigned - a replaced
+     field typed by an alias of a named struct (`out.A = in.A` with the replacement's type on the right: does not compile),
+     and a slice or map field declared through an alias (DeepCopyAs shared the container with the source) *)
+  Lemma alias_assigned_before_fix : forall b f p n r,
       f_ty f = TAlias p n r ->
-      field_stmt_gen L target c false true f = GOk (SAssign (f_name f)) [].
-  Proof. intros f p n r Et. unfold field_stmt_gen, switch_type. rewrite Et. reflexivity. Qed.
+      field_stmt_gen L target c false b f = GOk (SAssign (f_name f)) [].
+  Proof. intros b f p n r Et. unfold field_stmt_gen, switch_type. rewrite Et. reflexivity. Qed.
 
-  (* an alias of anything but a named type is assigned, replaced or not (the switch has no case for *types.Alias) *)
+  (* a slice or map field declared through an alias gets the container copy, and make(...) spells the alias's name *)
+  Lemma alias_container_copied : forall b f p n r,
+      f_ty f = TAlias p n r ->
+      is_container (unalias r) = true ->
+      exists s, field_stmt L target c b f = GOk s (snd (field_type_lit L target c (f_ty f))) /\
+        (s = SCopySlice (f_name f) (fst (field_type_lit L target c (f_ty f))) \/
+         s = SCopyMap (f_name f) (fst (field_type_lit L target c (f_ty f)))) /\
+        fst (field_type_lit L target c (f_ty f)) = (if bytes_eqb p target then OIdent n else OSel (L p) n).
+  Proof.
+    intros b f p n r Et Hc. unfold field_stmt, field_stmt_gen, switch_type. cbv zeta. rewrite Et. cbn [unalias].
+    assert (Hl : fst (field_type_lit L target c (TAlias p n r)) = (if bytes_eqb p target then OIdent n else OSel (L p) n)).
+    { cbn [field_type_lit]. destruct (bytes_eqb p target); reflexivity. }
+    destruct (unalias r) eqn:Eu; cbn [is_container] in Hc; try discriminate;
+      destruct (field_type_lit L target c (TAlias p n r)) as [o i]; eexists; (split; [reflexivity|]); split; eauto.
+  Qed.
+
+  (* an alias of anything but a named, slice or map type is assigned, replaced or not *)
   Lemma alias_field_assigned : forall b f p n r,
       f_ty f = TAlias p n r ->
       (forall pkg name u ms, unalias r <> TNamed pkg name u ms) -> unalias r <> TError ->
+      is_container (unalias r) = false ->
       field_stmt L target c b f = GOk (SAssign (f_name f)) [].
   Proof.
-    intros b f p n r Et Hn He. unfold field_stmt, field_stmt_gen, switch_type. rewrite Et. cbn [unalias].
-    destruct (unalias r) eqn:Eu; try reflexivity.
+    intros b f p n r Et Hn He Hc. unfold field_stmt, field_stmt_gen, switch_type. cbv zeta. rewrite Et. cbn [unalias].
+    destruct (unalias r) eqn:Eu; cbn [is_container] in Hc; try discriminate; try reflexivity.
     - exfalso. apply He. reflexivity.
     - exfalso. eapply Hn. reflexivity.
   Qed.
@@ -913,9 +923,9 @@ Section Main.
       { apply in_flat_map. exists s. split; assumption. }
       destruct (gen_stmts_quals L target c _ _ _ _ _ _ _ _ Hs Hqin) as [Hnil|[f [p [Hfin [Hret [Hc [Hp [Hpt Hql]]]]]]]];
         [contradiction|].
-      assert (Htrue : existsb (fun f => negb (omitted (ti_omit ti) (f_name f)) && is_container (f_ty f)
+      assert (Htrue : existsb (fun f => negb (omitted (copy_skip (ti_omit ti)) (f_name f)) && is_container (unalias (f_ty f))
                   && existsb (fun p => negb (bytes_eqb p target) && name_in (last_segment p) shadow_names_block)
-                             (ty_pkgs (f_ty f))) fs = true).
+                             (fty_pkgs (f_ty f))) fs = true).
       { apply existsb_exists. exists f. split; [exact Hfin|].
         unfold retained in Hret. rewrite Hret, Hc. cbn [andb].
         apply existsb_exists. exists p. split; [exact Hp|]. rewrite Hpt. cbn [negb andb].
